@@ -373,6 +373,11 @@ def gen_cases(rec, rng, tier):
     for i, (cls, RPa) in enumerate(pdag.concatenation_ambiguous_stacks()):
         if i % 4 == rec.shard % 4:
             yield {'kind': 'pda', 'cls': 'pda_' + cls, 'ref': RPa, 'n': 3, 'limit': 30, 'eps': ''}
+    # closure limit RAISED above the default of 1000 on a large finite closure (round 14, C15_l: a path search whose bound was frozen at
+    # import time): the accepting run needs the configuration that a breadth-first closure finds last, after about 2^(k+1) expansions
+    for j, (k, lim) in enumerate(((10, 5000), (10, 100000))):
+        if rec.shard % 8 == 3 + j:
+            yield {'kind': 'pda', 'cls': 'pda_large_finite_closure_limit_above_default', 'ref': pdag.guess_bits(k), 'n': 2, 'limit': lim, 'eps': ('', '_')[j]}
     if rec.shard % 8 == 2:
         for (name, RP, eps) in pdag.shipped_pdas(env.REPO):
             yield {'kind': 'pda', 'cls': 'shipped_' + name, 'ref': RP, 'n': 4, 'limit': 50, 'eps': eps}
